@@ -8,8 +8,15 @@ its character; all 252 named entities and the numeric boundaries normalise.
 """
 import re
 
+import html.entities
+
 import treeprops
 import vlib
+
+
+ENTITY_NAMES = set(html.entities.entitydefs)
+HEXDIGITS = re.compile(r"[0-9a-fA-F]+\Z")
+DECDIGITS = re.compile(r"[0-9]+\Z")
 
 
 def is_subseq(a, b):
@@ -61,6 +68,17 @@ def _work(seeds):
                 ch = e.normalize()
                 if not (isinstance(ch, str) and len(ch) == 1):
                     fail = "entity %s normalises to %r" % (e, ch)
+                # what counts as an entity, stated independently of the tokenizers and of normalize(): a name of
+                # html.entities, or ASCII decimal / hexadecimal digits denoting 1..0x10FFFF; anything else must stay text
+                v = str(e.value)
+                if e.named:
+                    good = v in ENTITY_NAMES
+                elif e.hexadecimal:
+                    good = bool(HEXDIGITS.match(v)) and 1 <= int(v.lstrip("0") or "0", 16) <= 0x10FFFF
+                else:
+                    good = bool(DECDIGITS.match(v)) and len(v.lstrip("0")) <= 8 and 1 <= int(v.lstrip("0") or "0") <= 0x10FFFF
+                if not good:
+                    fail = "%r was recognised as an entity although it is not a valid one (it must stay text)" % str(e)
         except Exception as ex:  # noqa: BLE001
             fail = "strip_code / normalize raised %r" % (ex,)
         out.append((text, enc, treeprops.impl_record(code) if fail is None else "failed", fail, len(ents), len(code.filter()) > len(code.nodes)))
